@@ -51,6 +51,35 @@ theorem class_table_as_modelled :
 theorem clamps_complete :
     ∀ c ∈ rateClasses, c.chainOk = true ∧ (c.chain.all fun t => t.2.2) = true := by decide
 
+/-- **no floor / clip / helper between the stored table and the interpolator**: in every constructor the tabulated values
+reach the interpolators through `np.log10` applied directly to the stored array (after `PhotonToJ.to` for the photon
+classes, `st / sref` for the beam classes), and `__init__` calls nothing outside the known set (third component empty).
+This is what `grid2` / `grid3` / `beam` / `beamCX` transcribe as `E.logc (conv cf wl y)` on *every* entry, so the
+knot-reproduction theorems (`grid2_at_knot`, `grid3_at_knot`, `beam_at_knot`, `beamCX_at_knot`: the stored value, for
+every positive magnitude) speak about the current source.  A `np.maximum(rate, 1e-50)` in a helper or inline changes
+this table. -/
+theorem table_logs_plain : tableLogs = [
+    ("IonisationRate", ["data['rate']"], []),
+    ("RecombinationRate", ["data['rate']"], []),
+    ("ThermalCXRate", ["data['rate']"], []),
+    ("ImpactExcitationPEC", ["PhotonToJ.to(rate,wavelength)"], []),
+    ("RecombinationPEC", ["PhotonToJ.to(rate,wavelength)"], []),
+    ("ThermalCXPEC", ["PhotonToJ.to(rate,wavelength)"], []),
+    ("BeamStoppingRate", ["data['sen']", "data['st']/data['sref']"], []),
+    ("BeamPopulationRate", ["data['sen']", "data['st']/data['sref']"], []),
+    ("BeamEmissionPEC", ["PhotonToJ.to(data['sen'],wavelength)", "data['st']/data['sref']"], []),
+    ("BeamCXPEC", ["PhotonToJ.to(data['qeb'],wavelength)"], []),
+    ("LineRadiationPower", ["data['rate']"], []),
+    ("ContinuumPower", ["data['rate']"], []),
+    ("CXRadiationPower", ["data['rate']"], [])] := by decide
+
+/-- … and it lists exactly the modelled classes, with `PhotonToJ.to` in the first logarithm iff the class is a photon class -/
+theorem table_logs_cover_modelled :
+    (∀ t ∈ tableLogs, t.1 ∈ modelled.map (·.name)) ∧ tableLogs.length = modelled.length
+    ∧ ∀ m ∈ modelled, ∃ t ∈ tableLogs, t.1 = m.name ∧ decide (t.2.1.head? ∈ [some "PhotonToJ.to(rate,wavelength)", some "PhotonToJ.to(data['sen'],wavelength)",
+            some "PhotonToJ.to(data['qeb'],wavelength)"]) = m.photon := by
+  decide
+
 /-- every rate class returned by an accessor is modelled -/
 theorem rate_classes_modelled : ∀ a ∈ accessors, a.rateClass ∈ modelled.map (·.name) := by decide
 
